@@ -166,9 +166,11 @@ func (r *run) update(e Event) {
 	default:
 		vh.Die("unknown update op %q", e.Op)
 	}
-	if err == nil {
-		r.started("policies")
+	if err != nil {
+		// no script of this harness makes an update fail: a failure is a problem of the fixture (fake admin API, files)
+		vh.Die("update %s failed: %v", e.Op, err)
 	}
+	r.started("policies")
 	ev := r.snap(vh.Ev{"ev": "update", "op": e.Op, "label": e.Label, "ok": err == nil})
 	label, df := c11acc.Describe(r.fx.Accessor.GetCurrentPoliciesData())
 	ev["clabel"], ev["cdf"] = label, df
